@@ -60,7 +60,15 @@ func runSolver(ctx context.Context, sp solverSpec, file string, timeoutS, seed i
 	cmd.Run()
 	el := time.Since(start).Seconds()
 	s := out.String()
-	first := strings.TrimSpace(strings.SplitN(strings.TrimSpace(s), "\n", 2)[0])
+	first := ""
+	for _, l := range strings.Split(s, "\n") {
+		l = strings.TrimSpace(l)
+		if l == "" || strings.HasPrefix(l, "WARNING") || strings.HasPrefix(l, "(warning") {
+			continue
+		}
+		first = l
+		break
+	}
 	switch first {
 	case "sat", "unsat", "unknown":
 		return first, s, el
@@ -265,11 +273,20 @@ func SolveAll(obls []*Obligation, workDir string, timeoutS, seed, workers int, a
 			if o.Expect == "sat" {
 				// vacuity guards and canaries: the query must NOT be refutable. With quantified contracts the
 				// solvers often cannot produce a model, so anything but `unsat` within a short time is accepted.
-				to := 3
+				to := 2
 				if o.Kind == "canary" {
 					to = timeoutS
 				}
-				r := Solve(workDir, o.Name(), script, to, seed, false)
+				var r SolveResult
+				if o.Kind == "canary" {
+					r = Solve(workDir, o.Name(), script, to, seed, false)
+				} else {
+					// one solver, briefly: only a refutation matters
+					file := filepath.Join(workDir, sanitizeFile(o.Name())+".smt2")
+					os.WriteFile(file, []byte(script), 0o644)
+					a, out, secs := runSolver(context.Background(), solvers[0], file, to, seed)
+					r = SolveResult{Status: a, Backend: solvers[0].name, Detail: out, Seconds: secs, Answers: map[string]string{solvers[0].name: a}}
+				}
 				ok := r.Status != "unsat" && r.Status != "error"
 				if o.Kind == "canary" {
 					ok = r.Status == "sat"
